@@ -179,7 +179,9 @@ Section MaskSift.
   Variable aone : A.
   Variable std : V -> A.
 
-  Inductive amp_arg := AmpScalar (a : A) | AmpArray (l : list A).
+  (* mask_amp: a Python int / float (np.float64 is one), any OTHER zero-dimensional numpy value (np.float32,
+     np.int64, a 0-d array), or array_like *)
+  Inductive amp_arg := AmpScalar (a : A) | AmpNpScalar (a : A) | AmpArray (l : list A).
 
   (* sd: 1 / X.std() / imf[:, -1].std() (X.std() before the first layer); acc = the columns returned so far *)
   Definition amp_sd (mode : amp_mode) (X : V) (acc : list V) : A :=
@@ -189,44 +191,50 @@ Section MaskSift.
     | RatioImf => match acc with [] => std X | _ => std (last acc vzero) end
     end.
 
-  (* amp = mask_amp * sd, or mask_amp[imf_layer] * sd (None: IndexError) *)
-  Definition amp_of (mode : amp_mode) (arg : amp_arg) (layer : nat) (X : V) (acc : list V) : option A :=
+  (* amp = mask_amp * sd, or mask_amp[imf_layer] * sd (None: IndexError).  Repaired form: every zero-dimensional
+     value is a single number (np.ndim(mask_amp) == 0).  [v0 = true] is the code before the repair, which tested
+     isinstance(mask_amp, (int, float)) and therefore INDEXED numpy scalars: IndexError *)
+  Definition amp_of_gen (v0 : bool) (mode : amp_mode) (arg : amp_arg) (layer : nat) (X : V) (acc : list V) : option A :=
     match arg with
     | AmpScalar a => Some (amul a (amp_sd mode X acc))
+    | AmpNpScalar a => if v0 then None else Some (amul a (amp_sd mode X acc))
     | AmpArray l => match nth_error l layer with
                     | Some a => Some (amul a (amp_sd mode X acc))
                     | None => None
                     end
     end.
+  Definition amp_of := amp_of_gen false.
+  Definition amp_of_v0 := amp_of_gen true.
 
   (* ---- mask_sift ---- *)
   Variable small : V -> bool.
 
-  Definition layer_extract (gm : V -> F -> A -> nat -> gni_result V)
+  Definition layer_extract (v0 : bool) (gm : V -> F -> A -> nat -> gni_result V)
              (freqs : list F) (mode : amp_mode) (arg : amp_arg) (n : nat) (X : V)
     : nat -> list V -> V -> gni_result V :=
     fun layer acc r =>
-      match nth_error freqs layer, amp_of mode arg layer X acc with
+      match nth_error freqs layer, amp_of_gen v0 mode arg layer X acc with
       | Some z, Some amp => gm r z amp n
       | _, _ => ConvergeError 0                       (* IndexError *)
       end.
 
   (* None: raised before the loop.  Otherwise (columns, exit flags, the list returned with ret_mask_freq=True) *)
-  Definition mask_sift_gen (gm : nat -> V -> F -> A -> nat -> gni_result V)
+  Definition mask_sift_gen (v0 : bool) (gm : nat -> V -> F -> A -> nat -> gni_result V)
              (fuel : nat) (src : freq_source) (s : F) (max_imfs : nat)
              (mode : amp_mode) (arg : amp_arg) (n : nat) (X : V) : option (list V * exit_flags * list F) :=
     match mask_freqs src s max_imfs X with
     | None => None
     | Some (freqs, cap) =>
         let '(imfs, e) := peel_loop V vzero vadd vsub small
-                                    (fun layer => layer_extract (gm layer) freqs mode arg n X layer)
+                                    (fun layer => layer_extract v0 (gm layer) freqs mode arg n X layer)
                                     fuel (Some cap) X [] in
         Some (imfs, e, freqs)
     end.
 
-  Definition mask_sift := mask_sift_gen (fun _ => gni_mask).
+  Definition mask_sift := mask_sift_gen false (fun _ => gni_mask).
+  Definition mask_sift_v0 := mask_sift_gen true (fun _ => gni_mask).
   (* every layer's pool has its own schedule *)
-  Definition mask_sift_pool (scheds : nat -> schedule) := mask_sift_gen (fun layer => gni_mask_pool (scheds layer)).
+  Definition mask_sift_pool (scheds : nat -> schedule) := mask_sift_gen false (fun layer => gni_mask_pool (scheds layer)).
 End MaskSift.
 
 (* ---- executable fixed-point instance ------------------------------------------------------------------------
@@ -292,11 +300,15 @@ Definition q_pow (s : Q) (i : nat) : Q := Qpower s (Z.of_nat i).
 
 (* only the absolute amplitude mode has an exact twin (std is irrational); [fun _ => 1] is never consulted in
    that mode (MaskSiftFacts.amp_abs_ignores_std) and the 'if' source is not run in this instance *)
-Definition fx_mask_sift (c : list Z) (fuel : nat) (src : freq_source Q) (s : Q) (max_imfs : nat)
+Definition fx_mask_sift_gen (v0 : bool) (c : list Z) (fuel : nat) (src : freq_source Q) (s : Q) (max_imfs : nat)
            (arg : amp_arg Z) (n : nat) (X : list Z) : option (list (list Z) * exit_flags * list Q) :=
-  mask_sift (list Z) Z Q (Toys.vzero (length X)) Toys.vadd Toys.vsub fx_vscale fx_vdivn (fx_cosm (length X))
-            (fx_gni c) Qdiv q_pow q_valid fx_zc_freq (fun _ => 0%Q) Z.mul 1 (fun _ => 1)
-            (small (cg c 14 * FXU)) fuel src s max_imfs AmpAbs arg n X.
+  mask_sift_gen (list Z) Z Q (Toys.vzero (length X)) Toys.vadd Toys.vsub (fx_gni c) Qdiv q_pow q_valid fx_zc_freq (fun _ => 0%Q)
+                Z.mul 1 (fun _ => 1) (small (cg c 14 * FXU)) v0
+                (fun _ => gni_mask (list Z) Z Q (Toys.vzero (length X)) Toys.vadd Toys.vsub fx_vscale fx_vdivn
+                                   (fx_cosm (length X)) (fx_gni c))
+                fuel src s max_imfs AmpAbs arg n X.
+Definition fx_mask_sift := fx_mask_sift_gen false.
+Definition fx_mask_sift_v0 := fx_mask_sift_gen true.
 
 (* ---- rendering -------------------------------------------------------------------------------------------- *)
 Definition render_q (q : Q) : list Z := let r := Qred q in [Qnum r; Zpos (Qden r)].
@@ -316,7 +328,8 @@ Definition run_fx_gni_mask_pool (c X : list Z) (z : Z * Z) (amp n : Z) (nworkers
   then render_gni (fx_gni_mask_pool c (mk_schedule s) (to_fx X) (mkq z) amp (Z.to_nat n))
   else [-7].
 
-(* src = [0] zc | [2; num; den] float | 3 :: num1 :: den1 :: ... list;  amps = [a] scalar (flag 0) | array (flag 1)
+(* src = [0] zc | [2; num; den] float | 3 :: num1 :: den1 :: ... list;
+   amps = [a] Python scalar (flag 0) | array (flag 1) | [a] numpy scalar (flag 2; flag 3: the code before the repair)
    output: [-1] raised | [-6] fuel | 0 :: columns (each closed by -99999) ++ [-99998] ++ returned frequencies *)
 Fixpoint q_pairs (l : list Z) : list Q :=
   match l with a :: b :: t => (a # Z.to_pos b) :: q_pairs t | _ => [] end.
@@ -331,8 +344,9 @@ Definition src_of (l : list Z) : freq_source Q :=
 
 Definition run_fx_mask_sift (c X : list Z) (src : list Z) (s : Z * Z) (max_imfs : Z) (amp_is_array : Z)
            (amps : list Z) (n : Z) : list Z :=
-  let arg := if amp_is_array =? 1 then AmpArray Z amps else AmpScalar Z (nth 0 amps 0) in
-  match fx_mask_sift c 60 (src_of src) (mkq s) (Z.to_nat max_imfs) arg (Z.to_nat n) (to_fx X) with
+  let arg := if amp_is_array =? 1 then AmpArray Z amps
+             else if amp_is_array =? 0 then AmpScalar Z (nth 0 amps 0) else AmpNpScalar Z (nth 0 amps 0) in
+  match fx_mask_sift_gen (amp_is_array =? 3) c 60 (src_of src) (mkq s) (Z.to_nat max_imfs) arg (Z.to_nat n) (to_fx X) with
   | None => [-1]
   | Some (imfs, e, freqs) =>
       if raised e then [-1] else if out_of_fuel e then [-6]
